@@ -51,7 +51,14 @@ impl Expression for Return {
         let value = self.expr.type_info(state);
         TypeInfo::new(
             state,
-            TypeDef::never().with_returns(value.result.kind().clone()),
+            // the operand's value, or whatever the operand itself may return
+            TypeDef::never().with_returns(
+                value
+                    .result
+                    .kind()
+                    .clone()
+                    .union(value.result.returns().clone()),
+            ),
         )
     }
 }
